@@ -30,7 +30,7 @@ type c01Case struct {
 
 func c01Hooks(early bool) a2j.Hooks {
 	if early {
-		return a2j.Hooks{EarlyAdd: true, UseFunc: func(int, string) bool { return true }}
+		return a2j.Hooks{EarlyAdd: true, CloneShared: true, UseFunc: func(int, string) bool { return true }}
 	}
 	return a2j.Hooks{}
 }
@@ -58,7 +58,7 @@ func runC01(r *ev.Recorder) {
 	r.Rule = "(i) corpus: every .go file (testdata and _ directories excluded) below GOROOT/src of the installed toolchain and below the repository itself (thorough: also /opt/veriftools/go1.26.8/src) - a complete enumeration of a fixed finite set in sorted order - " +
 		"is parsed, translated construct by construct into DSL calls (internal/a2j: the element the README documents for each construct), rendered with File.Render, re-parsed, and both trees compared in canonical form " +
 		"(internal/norm: positions, comments, redundant parentheses and empty statements dropped; literals by value; all-keyed composite literals as key-sorted lists and conventional struct tags as key-sorted maps, the documented ordering of Dict and Tag). " +
-		"Every fourth file (thorough: every file) is also translated with each declaration added to the File before it is completed and with the ...Func variant at every list site. (ii) generated programs: see coverage.generated. Skips are counted with their reason, never silent. distinct_nontrivial = distinct files / programs translated and compared (each contains at least one declaration)"
+		"Every fourth file (thorough: every file) is also translated with each declaration added to the File before it is completed, with the ...Func variant at every list site, and with every selector chain a.b.c built once and Clone()d at each use. (ii) generated programs: see coverage.generated. Skips are counted with their reason, never silent. distinct_nontrivial = distinct files / programs translated and compared (each contains at least one declaration)"
 	r.Assume = []string{"files with dot imports are skipped (uses of a dot import cannot be found syntactically), as are files importing one path twice (not expressible: the import table is keyed by path) and files that do not parse",
 		"go/parser, go/printer and go/constant define syntax trees and literal values"}
 
@@ -83,9 +83,10 @@ func runC01(r *ev.Recorder) {
 			b := roundTrip(path, src, res.name, a2j.Hooks{})
 			r.Eval(1)
 			if b.Kind == "ok" && (r.Tier == ev.Thorough || i%4 == 0) {
-				// the same file with every declaration added to the File BEFORE it is completed, and
-				// with the ...Func variant at every list-construct site
-				b2 := roundTrip(path, src, res.name, a2j.Hooks{EarlyAdd: true, UseFunc: func(site int, name string) bool { return true }})
+				// the same file with every declaration added to the File BEFORE it is completed, with the
+				// ...Func variant at every list-construct site, and with every selector chain built once
+				// and cloned at each use
+				b2 := roundTrip(path, src, res.name, c01Hooks(true))
 				r.Eval(1)
 				if b2.Kind != "ok" {
 					b = b2
